@@ -13,14 +13,14 @@ CONSTANTS MaxLen, Emit
 
 Ops == {"parse", "split", "format_reindent", "format_python", "format_case", "bad_option", "type_error",
         "abandon_keep", "abandon_drop", "recursion_error", "reconfigure", "clear", "default_init",
-        "format_aligned", "parse_junk"}
+        "format_aligned", "parse_junk", "add_keywords"}
 
 VARIABLES hist, cfg, done
 vars == <<hist, cfg, done>>
 
 Init == hist = <<>> /\ cfg = "default" /\ done = FALSE
 
-Effect(op, c) == CASE op = "reconfigure"  -> "custom"
+Effect(op, c) == CASE op \in {"reconfigure", "add_keywords"} -> "custom"
                    [] op = "clear"        -> "cleared"
                    [] op = "default_init" -> "default"
                    [] OTHER               -> c
